@@ -128,16 +128,16 @@ def leaf_tok(bits, refs, cells):
     return f"{bits or '-'}/{'.'.join(cells[i].hash.hex() for i in refs) or '-'}"
 
 
-def tree_case(ctx, n, items, ybits, prune_p, base, tag, canonical=False, force=None, xref=False):
+def tree_case(ctx, n, items, ybits, prune_p, base, tag, canonical=False, force=None, xref=False, pre=None):
     """items: sorted [(key bits, (value bits, [ref idx]))]; builds a valid tree with random constructors and prunings and checks all parsers"""
     HashMap, parse_hashmap, parse_hashmap_aug, Builder, Cell = _lib()
     rng = ctx.rng
-    t = M.patricia(items)
+    t = pre if pre is not None else M.patricia(items)         # pre: a fully annotated tree (replay)
     room = max(len(v[0]) for _, v in items)
     # xref: extra:Y = uint(ybits) ++ Maybe ^Cell - the augmentation OWNS a reference (as CurrencyCollection's dictionary does),
     # so the parser must hand Y a slice whose next reference is the one after left/right (fork) / before the value's (leaf)
     xw = ybits + 1 if xref else ybits
-    if not M.choose_kinds(rng, t, n, xw, room, canonical):
+    if pre is None and not M.choose_kinds(rng, t, n, xw, room, canonical):
         ctx.count('tree:does-not-fit')
         return
     if xref is True:
@@ -153,7 +153,8 @@ def tree_case(ctx, n, items, ybits, prune_p, base, tag, canonical=False, force=N
         setx(t)
     if force:
         force(t)
-    M.mark_pruned(rng, t, prune_p)
+    if pre is None:
+        M.mark_pruned(rng, t, prune_p)
     db, root, toks, leaves, extras = M.emit_tree(t, n, base)
     if not db.ok(root):
         ctx.count('tree:invalid-cell')
@@ -216,6 +217,23 @@ def tree_case(ctx, n, items, ybits, prune_p, base, tag, canonical=False, force=N
         ok = ok and check('from_cell', lambda: HashMap.from_cell(rc, n).map, C09.show_dict, want_int, 'f')
         ok = ok and check('load_hashmap', lambda: rc.begin_parse().load_hashmap(n), C09.show_dict, want_api, 'h')
         ok = ok and check('load_dict', lambda: cont.begin_parse().load_dict(n), C09.show_dict, want_api, 'ld', cnode, dag2)
+        if ok and not npruned and leaves:
+            # loading ANY valid (possibly non-canonical) encoding and serialising the loaded HashMap must give THE canonical cell
+            # of that content - the one the reference serialiser (gen/maps.py) builds from the same leaves
+            t2 = M.patricia([(k_, (b_, list(r_))) for k_, b_, r_ in leaves])
+            if M.choose_kinds(rng, t2, n, 0, max(len(b_) for _, b_, _ in leaves), True):
+                db2, root2, _, _, _ = M.emit_tree(t2, n, base)
+                canon_hash = db2.infos[root2].H[0] if db2.ok(root2) else None
+
+                def reser():
+                    hm = HashMap.from_cell(rc, n)
+                    hm.value_serializer = lambda src, dest: dest.store_slice(src)
+                    return hm.serialize()
+                got = call(reser)
+                ctx.count('reserialize:from_cell')
+                if canon_hash is not None and (is_err(got) or got is None or got.hash != canon_hash):
+                    ctx.fail('reserialize:from_cell', 'HashMap.from_cell(valid encoding).serialize() is not the canonical cell of that content',
+                             inp, 'exception' if is_err(got) else (got.hash.hex() if got is not None else None), canon_hash.hex())
         ok = ok and check('preload_dict', lambda: cont.begin_parse().preload_dict(n), C09.show_dict, want_api, 'ld', cnode, dag2)
     else:
         y = lambda s: s.load_uint(ybits)
@@ -237,16 +255,22 @@ def tree_case(ctx, n, items, ybits, prune_p, base, tag, canonical=False, force=N
             return (';'.join(f'{k}={v}' for k, v in d.items()) or '-') + ' ' + ('.'.join(map(str, ex)) or '-')
         # HashmapAugE: ahme_root$1 root:^(HashmapAug n X Y) extra:Y  /  ahme_empty$0 extra:Y  (the top-level extra is read since f2933e1)
         te = (len(leaves) * 5 + 3 + n) % (1 << ybits)
-        tebits = format(te, f'0{ybits}b') + ('0' if xref else '')
-        cont = Builder().store_bit(1).store_ref(rc).store_bits(tebits).end_cell()
-        dag2 = dag + f'|-1,1{tebits},{root}'
-        cont0 = Builder().store_bit(0).store_bits(tebits).end_cell()
-        dag0 = dag + f'|-1,0{tebits},-'
+        # with ref-owning augmentations the TOP-LEVEL extra of the HashmapAugE owns one too: ahme_root$1 root:^.. extra:Y - its
+        # reference comes AFTER the root reference (ahme_empty$0 extra:Y: it is the only one)
+        xtop = bool(xref and base)
+        tebits = format(te, f'0{ybits}b') + (('1' if xtop else '0') if xref else '')
+        tes = f'{te}^{cells[0].hash.hex()}' if xtop else te
+        cb = Builder().store_bit(1).store_ref(rc).store_bits(tebits)
+        cont = (cb.store_ref(cells[0]) if xtop else cb).end_cell()
+        dag2 = dag + f'|-1,1{tebits},{root}' + ('.0' if xtop else '')
+        cb0 = Builder().store_bit(0).store_bits(tebits)
+        cont0 = (cb0.store_ref(cells[0]) if xtop else cb0).end_cell()
+        dag0 = dag + f'|-1,0{tebits},' + ('0' if xtop else '-')
         contx = Builder().store_bit(1).store_ref(rc).end_cell()          # extra missing: not a HashmapAugE, must raise
         ok = check('parse_hashmap_aug', lambda: parse_hashmap_aug(rc.begin_parse(), n, x, y), render, want, am)
         ok = ok and check('load_hashmap_aug', lambda: rc.begin_parse().load_hashmap_aug(n, x, y), render, want, am)
         ok = ok and check('load_hashmap_aug_e', lambda: cont.begin_parse().load_hashmap_aug_e(n, x, y), render, want, aem, cnode, dag2)
-        ok = ok and check('load_hashmap_aug_e', lambda: cont0.begin_parse().load_hashmap_aug_e(n, x, y), render, f'- {te}', aem, cnode, dag0)
+        ok = ok and check('load_hashmap_aug_e', lambda: cont0.begin_parse().load_hashmap_aug_e(n, x, y), render, f'- {tes}', aem, cnode, dag0)
         gotx = call(lambda: contx.begin_parse().load_hashmap_aug_e(n, x, y))
         ctx.count('parser:load_hashmap_aug_e:no-extra')
         ctx.expect_model(f"hmparse {dag + f'|-1,1,{root}'} {cnode} {n} {aem}", 'err' if is_err(gotx) else 'ok ' + render(gotx), tag + ':auge-no-extra')
@@ -352,11 +376,4 @@ def replay_tree(ctx, inp):
                 put(t['l'])
                 put(t['r'])
         put(tree)
-    orig_patricia, orig_choose, orig_mark = M.patricia, M.choose_kinds, M.mark_pruned
-    try:
-        M.patricia = lambda items: tree
-        M.choose_kinds = lambda *a, **k: True
-        M.mark_pruned = lambda *a, **k: None
-        tree_case(ctx, n, [('', ('', []))], ybits, 0.0, base, inp.get('tag', 'replay'), xref='fixed' if inp.get('xref') else False)
-    finally:
-        M.patricia, M.choose_kinds, M.mark_pruned = orig_patricia, orig_choose, orig_mark
+    tree_case(ctx, n, [('', ('', []))], ybits, 0.0, base, inp.get('tag', 'replay'), xref='fixed' if inp.get('xref') else False, pre=tree)
